@@ -22,6 +22,7 @@ def chain_delay(pipe):
 class C07(Prop):
     pid = "C07"
     lean_module = "RxModel.Props.C07"
+    extra_modules = ("RxModel.Props.C07C", "RxModel.Props.C07C2")
     design_ref = "DESIGN.md §6 C07"
     rule = ("chains of delay / observe_on / subscribe_on / delay_subscription (and their _at and _threads forms) "
             "mixed with synchronous operators over a hot subject or a cold source, items tagged 1,2,3…; scripts of "
